@@ -119,19 +119,53 @@ class VC:
             return sympy.oo if term > 0 else -sympy.oo
         return sympy.nsimplify(term) if isinstance(term, float) else sympy.sympify(term)
 
+    def resolve(self, term):
+        """replace every ite(c, a, b) of `term` whose condition is decided by the path condition (pc |= c or pc |= not c)
+        by the selected branch; undecided conditions are kept.  Sound: the result equals `term` under the path condition."""
+        t = term.t if isinstance(term, Sym) else term
+        cache = {}
+
+        def rec(e):
+            k = e.get_id()
+            if k in cache:
+                return cache[k]
+            if z3.is_app(e) and e.decl().kind() == z3.Z3_OP_ITE:
+                c, a, b = e.children()
+                c = rec(c)
+                if not self.path._feasible(z3.Not(c)):
+                    r = rec(a)
+                elif not self.path._feasible(c):
+                    r = rec(b)
+                else:
+                    r = z3.If(c, rec(a), rec(b))
+            elif z3.is_app(e) and e.num_args() > 0:
+                r = e.decl()(*[rec(ch) for ch in e.children()])
+            else:
+                r = e
+            cache[k] = r
+            return r
+        out = rec(t)
+        return Sym(out, term.k, getattr(term, "meta", None)) if isinstance(term, Sym) else out
+
     def sp_symbol(self, name, **assumptions):
         import sympy
         symbols = self.path.ghost.setdefault("_sp_symbols", {})
         symbols[name] = sympy.Symbol(name, **assumptions)
         return symbols[name]
 
-    def check_zero(self, label, expr, sampler=None):
-        """analytic obligation: `expr` (sympy) is identically zero on the region described by `sampler`"""
+    def check_zero(self, label, expr, sampler=None, budget_s=120.0):
+        """analytic obligation: `expr` (sympy) is identically zero on the region described by `sampler`.
+        `expr` may be a thunk (evaluated under the same wall-clock guard; a CAS timeout is `undecided`)."""
         import time as _t
-        from .tosympy import is_zero
+        from .tosympy import is_zero, timed, CasTimeout
         from .path import ObResult, STATS
         t0 = _t.time()
-        status, info = is_zero(expr, sampler)
+        try:
+            if callable(expr) and not hasattr(expr, "free_symbols"):
+                expr = timed(expr, budget_s)
+            status, info = timed(lambda: is_zero(expr, sampler), budget_s)
+        except CasTimeout as ex:
+            status, info = "undecided", {"why": str(ex)}
         dt = _t.time() - t0
         STATS["sympy_queries"] = STATS.get("sympy_queries", 0) + 1
         STATS["sympy_time"] = STATS.get("sympy_time", 0.0) + dt
